@@ -61,7 +61,7 @@ theorem applySet_no_bound (set : List (Nat × Expr)) (old new : Row) (b1 b2 : Li
       exact ih h.2 _
   exact this old
 
-theorem pickClause_mem {cls : List Clause} {viol : List (List Nat)} {cl : Clause}
+theorem pickClause_mem {cls : List Clause} {viol : List UIdx} {cl : Clause}
     (h : pickClause cls viol = some cl) : cl ∈ cls := by
   unfold pickClause at h
   exact List.mem_of_find?_eq_some h
@@ -224,7 +224,7 @@ theorem upsert_bound_batched_counterexample :
     ∃ (s : Stmt) (tbl : List Row) (ps : List Param),
       stmtUsesBound s = true ∧
       runBatched s tbl (SaVerif.Imv.chunk 2 ps) ≠ runRows s tbl ps :=
-  ⟨⟨[[0]], [⟨some [0], .update [(1, .bound 0)] .always⟩], []⟩,
+  ⟨⟨[([0], [])], [⟨some ([0], []), .update [(1, .bound 0)] .always⟩], []⟩,
     [[some 1, some 0], [some 2, some 0]],
     [⟨[some 1, some 5], [some 7]⟩, ⟨[some 2, some 6], [some 8]⟩], by decide, by decide⟩
 
@@ -252,7 +252,7 @@ theorem returning_rows_in_param_order (s : Stmt) :
         cases h
         simp [ih t1 _ outs' hrest]
 
-theorem findConflict_lt {u : List Nat} {tbl : List Row} {r : Row} {i : Nat}
+theorem findConflict_lt {u : UIdx} {tbl : List Row} {r : Row} {i : Nat}
     (h : findConflict u tbl r = some i) : i < tbl.length := by
   unfold findConflict at h
   by_cases hlt : tbl.findIdx (conflictsOn u r) < tbl.length
@@ -320,14 +320,18 @@ theorem do_nothing_keeps_existing (s : Stmt)
 /-! ## unique constraints stay satisfied -/
 
 /-- every unique constraint holds in the table (NULLs never collide) -/
-def UniqueOK (us : List (List Nat)) (tbl : List Row) : Prop :=
+def UniqueOK (us : List UIdx) (tbl : List Row) : Prop :=
   ∀ u ∈ us, tbl.Pairwise (fun a b => conflictsOn u a b = false)
 
-theorem conflictsOn_symm (u : List Nat) (a b : Row) : conflictsOn u a b = conflictsOn u b a := by
+theorem conflictsOn_symm (u : UIdx) (a b : Row) : conflictsOn u a b = conflictsOn u b a := by
   unfold conflictsOn
   congr 1
-  funext c
-  cases cell a c <;> cases cell b c <;> simp [Bool.beq_comm]
+  · congr 1
+    funext c
+    cases cell a c <;> cases cell b c <;> simp [Bool.beq_comm]
+  · congr 1
+    funext c
+    exact Bool.and_comm _ _
   all_goals exact Bool.eq_iff_iff.2 ⟨fun h => by simpa [eq_comm] using h, fun h => by simpa [eq_comm] using h⟩
 
 theorem pairwise_set {α : Type} {R : α → α → Prop} (e : α) :
@@ -489,17 +493,24 @@ theorem mysql_sequential_counterexample :
       ≠ applySet [(0, .add (.existing 0) (.const (some 1))), (1, .existing 0)] [some 5, some 0] [] [] := by
   decide
 
+/-- a partial unique index only constrains the rows its predicate admits: two rows equal
+    on the indexed column do not collide when the predicate column is NULL in one of them -/
+example : runRows ⟨[([0], []), ([1], [2])], [⟨some ([1], [2]), .nothing⟩], [0]⟩
+    [[some 1, some 10, none]] [⟨[some 2, some 10, some 5], []⟩, ⟨[some 3, some 10, some 6], []⟩]
+    = .ok ([[some 1, some 10, none], [some 2, some 10, some 5]],
+           [some [some 2, some 10, some 5], none]) := by decide
+
 /-! ## non-vacuity -/
 
-example : runRows ⟨[[0], [1]], [⟨some [0], .update [(2, .add (.existing 2) (.excluded 2))] .always⟩,
+example : runRows ⟨[([0], []), ([1], [])], [⟨some ([0], []), .update [(2, .add (.existing 2) (.excluded 2))] .always⟩,
       ⟨none, .nothing⟩], [0]⟩
     [[some 1, some 10, some 5], [some 2, some 20, some 5]]
     [⟨[some 1, some 99, some 7], []⟩, ⟨[some 3, some 20, some 1], []⟩, ⟨[some 4, some 40, some 1], []⟩]
     = .ok ([[some 1, some 10, some 12], [some 2, some 20, some 5], [some 4, some 40, some 1]],
            [some [some 1, some 10, some 12], none, some [some 4, some 40, some 1]]) := by decide
-example : runRows ⟨[[0], [1]], [⟨some [0], .nothing⟩], []⟩ [[some 1, some 10]]
+example : runRows ⟨[([0], []), ([1], [])], [⟨some ([0], []), .nothing⟩], []⟩ [[some 1, some 10]]
     [⟨[some 2, some 10], []⟩] = .error .constraint := by decide
-example : stmtUsesBound ⟨[[0]], [⟨some [0], .update [(1, .excluded 1)] (.lt (.existing 1) (.excluded 1))⟩], []⟩
+example : stmtUsesBound ⟨[([0], [])], [⟨some ([0], []), .update [(1, .excluded 1)] (.lt (.existing 1) (.excluded 1))⟩], []⟩
     = false := by decide
 example : NoReadAfterWrite [(1, .excluded 1), (2, .add (.existing 2) (.excluded 2))] := by
   simp [NoReadAfterWrite, exprReads]
